@@ -44,6 +44,10 @@ TExit ==
                   \/ \E s \in good : sol.objno \in EchoAllowed(cur.N, cur.objno, cur.multi, s)
                   \/ Bad([k |-> "echo", objno |-> sol.objno])
                /\ sol.present \/ Bad([k |-> "no-sol"])
+               \* with names given, a delivered objective carries the name of the objective it is
+               /\ \/ cur.names = <<>> \/ good = {}
+                  \/ \E s \in good : \A j \in 1..Len(s) : objs[j].name = cur.names[s[j]]
+                  \/ Bad([k |-> "objective-name", got |-> [j \in 1..Len(objs) |-> objs[j].name]])
 TOther == /\ E.e \notin {"Case", "Vars", "Obj", "Sol", "Exit"} /\ Step /\ UNCHANGED <<cur, objs, vlb, vub, sol, seen>>
           /\ E.e = "Meta" \/ Bad([k |-> "event", ev |-> E.e])
 
